@@ -19,8 +19,23 @@ PARAMS = [(proto, tr) for proto in ('json', 'xml', 'soap11', 'http-json')
 def event_order(sx, p):
     proto, transport = p
     sched, rec = P.run_scenario(sx, proto, transport)
-    if sched['stage'] == 'unserializable' and P.out_of(proto) == 'json':
+    if sched['stage'] == 'unserializable' and P.out_of(proto) in ('json', 'jsonp'):
         sx.outside('unserialisable return values are only in scope for the eagerly serialising XML protocols')
-    problems = O.check_events(sched, rec)
+    problems = O.check_events(sched, rec, judge_unserialisable_exception_object=False)
+    sx.observe('problems', problems)
+    return not problems
+
+
+@harness('C14', params=[p for p in PARAMS if p[0] in ('xml', 'soap11')], label=lambda p: '%s %s' % p,
+         functions=['spyne.server.wsgi.WsgiApplication.handle_rpc', 'spyne.server._base.ServerBase.get_out_string_pull'],
+         bounds={'schedule': 'only the schedule "user function returns a value the eagerly serialising XML protocol cannot '
+                             'serialise"'})
+def unserialisable_return_events(sx, p):
+    """method_exception_object fires when the call ends in a fault because the return value cannot be serialised"""
+    proto, transport = p
+    sched, rec = P.run_scenario(sx, proto, transport)
+    if sched['stage'] != 'unserializable':
+        sx.outside('other schedules are judged by event_order')
+    problems = [x for x in O.check_events(sched, rec) if 'method_exception_object' in x or 'escaped' in x]
     sx.observe('problems', problems)
     return not problems
